@@ -198,7 +198,19 @@ func HarnessC04LoopVar() {
 
 // HarnessC04Loop: the name loop can never be assigned or supplied as data; it is readable inside loops only.
 func HarnessC04Loop() {
-	switch vChoice("case", 4) {
+	switch vChoice("case", 8) {
+	case 4: // inside a loop the name holds an object: an object value must be refused as well
+		out, err := EvaluateString("@each(v in [1]){{ loop = {index: 9} }}{{ loop.index }}@end", nil)
+		vAssert(err != nil && out == "", "loop-cannot-be-assigned-inside-a-loop")
+	case 5:
+		out, err := EvaluateString("@each(v in [1]){{ loop = loop }}@end", nil)
+		vAssert(err != nil && out == "", "loop-cannot-be-assigned-inside-a-loop")
+	case 6:
+		out, err := EvaluateString("@each(v in [1])@each(loop in [{a: 1}])x@end@end", nil)
+		vAssert(err != nil && out == "", "loop-cannot-be-a-loop-variable")
+	case 7:
+		out, err := EvaluateString("@each(v in [1])@for(loop = {index: 3}; false; )x@end@end", nil)
+		vAssert(err != nil && out == "", "loop-cannot-be-a-loop-variable")
 	case 0:
 		k := vChoice("lit", len(c04Lits))
 		out, err := EvaluateString("{{ loop = "+c04Lits[k].src+" }}", nil)
